@@ -1,4 +1,4 @@
-\* C01 (ii-a): every composition of a message of 1..6 bytes into frames, whole-message reads
+\* C01 (ii-a2): every way the typed layer can cut a message of 1..5 bytes (Put + explicit FlushFrame), whole-message reads
 SPECIFICATION GenSpec
 CONSTANTS
   Max = 1048576
@@ -8,7 +8,7 @@ CONSTANTS
   IVLen = 16
   Hdr = 5
   Encs = {TRUE, FALSE}
-  SendApis = {"frames"}
+  SendApis = {"typed"}
   RecvApis = {"complete", "startread", "typed"}
   WriteSizes = {1, 2, 3, 4, 5, 6}
   StrSizes = {}
@@ -16,7 +16,7 @@ CONSTANTS
   MaxMsgs = 1
   MaxWrites = 6
   MaxReads = 1
-  MaxLen = 6
+  MaxLen = 5
   PairFirst = {}
   TypedFlush = {TRUE}
   Interleave = FALSE
